@@ -5,8 +5,10 @@ package main
 // conjunct, early exits, state shared where it must be fresh) rather than by place.
 
 import (
+	"go/ast"
 	"go/token"
 	"go/types"
+	"sort"
 	"strings"
 
 	"golang.org/x/tools/go/ssa"
@@ -715,6 +717,177 @@ func rFieldFootprint(id string, fns []string, reads, writes map[string]bool, tex
 				})
 			}
 			ru.Check(bad == "", "footprint/"+short(fn), w.Pos(fn.Pos()), "touches only the expected fields", short(fn)+" "+bad+": its result now depends on (or it leaves behind) state other than the graph's current vertices, edges and statuses")
+		}
+	}
+}
+
+// ------------------------------------------------------------------ round 8
+
+func init() {
+	addRules("C06", func(w *World, r *Report) {
+		subRule(w, r, rC04Lookahead, "R06.17", "what stands behind `--` sets nothing and marks nothing called: no value look-ahead passes the terminator (same obligations as C04 R04.3)", 2)
+	})
+	addRules("C16", func(w *World, r *Report) {
+		subRule(w, r, rC14Completion, "R16.19", "a task that asks for its dependents to be skipped is not a failure of the run: completions are classified with errors.Is, wrapped sentinels included (same obligations as C14 R14.2)", 2)
+	})
+	addRules("C11", rHelpNameInherited("R11.19"))
+	addRules("C18", rKindTables("R18.18"))
+	ws := map[string]string{"C13": "R13.13", "C14": "R14.12", "C16": "R16.20", "C10": "R10.16", "C06": "R06.18", "C01": "R01.20"}
+	for prop, id := range ws {
+		prop, id := prop, id
+		addRules(prop, func(w *World, r *Report) { rNoWholeOverwrite(w, r, prop, id) })
+	}
+}
+
+// rNoWholeOverwrite: the library's state objects are never overwritten as a whole once they exist.
+func rNoWholeOverwrite(w *World, r *Report, prop, id string) {
+	types_ := map[string][]string{
+		"C13": {"*dag.Vertex", "*dag.Graph"}, "C14": {"*dag.Vertex"}, "C16": {"*dag.Vertex", "*dag.Graph"},
+		"C10": {"*getoptions.programTree", "*option.Option"}, "C06": {"*option.Option"}, "C01": {"*option.Option"},
+	}[prop]
+	ru := r.Rule(id, "existing state objects are updated field by field, never overwritten as a whole: no store of a complete "+strings.Join(types_, " / ")+" value through a pointer to an object that already exists (`*v = *newVertex(t)` would also wipe the fields the single-writer table protects: edges, retry budget, status; parsed values, Called)", 1)
+	n := 0
+	for _, fn := range w.Funcs {
+		if w.PkgOfFn(fn) == nil {
+			continue
+		}
+		eachInstr(fn, func(in ssa.Instruction) {
+			st, ok := in.(*ssa.Store)
+			if !ok {
+				return
+			}
+			ts := typeString(st.Addr.Type())
+			hit := false
+			for _, t := range types_ {
+				if ts == t {
+					hit = true
+				}
+			}
+			if !hit {
+				return
+			}
+			if _, isStruct := st.Val.Type().Underlying().(*types.Struct); !isStruct {
+				return
+			}
+			if _, fresh := rootOfAddr(st.Addr).(*ssa.Alloc); fresh {
+				return // initialisation of the object being created
+			}
+			n++
+			ru.Bad("whole-store/"+short(fn), w.IPos(st), short(fn)+" overwrites an existing "+strings.TrimPrefix(ts, "*")+" as a whole: every field the rest of the library keeps in it (edges, counters, status, values) is reset along with the one that was meant")
+		})
+	}
+	if n == 0 {
+		ru.OK("whole-store", "-", "no whole-struct store into an existing state object")
+	}
+}
+
+// rHelpNameInherited (R11.19): a command declared after HelpCommand knows the help option's name.
+func rHelpNameInherited(id string) func(w *World, r *Report) {
+	return func(w *World, r *Report) {
+		ru := r.Rule(id, "a command created after HelpCommand still answers `--help`: NewCommand gives the new node the HelpCommandName of the node it is created under (Dispatch and Parse test Called(HelpCommandName) of the selected node)", 1)
+		fn := w.Fn("(*getoptions.GetOpt).NewCommand")
+		f := w.Field("getoptions", "programTree", "HelpCommandName")
+		if fn == nil || f == nil {
+			ru.Undecided("anchor", "-", "NewCommand / HelpCommandName not found")
+			return
+		}
+		good := false
+		eachInstr(fn, func(in ssa.Instruction) {
+			base, f2, val, ok := storeField(in)
+			if !ok || f2 != f {
+				return
+			}
+			if _, fresh := rootOfAddr(base).(*ssa.Alloc); !fresh {
+				return
+			}
+			if b, ok := loadOfField(val, f); ok {
+				// the parent: the receiver's programTree
+				if pb, ok := loadOfFieldNamed(b, "programTree"); ok && pb == ssa.Value(fn.Params[0]) {
+					good = true
+				}
+			}
+		})
+		ru.Check(good, "NewCommand/help-name", w.Pos(fn.Pos()), "HelpCommandName copied from the parent node", "NewCommand does not hand the help option's name to the new node: on commands declared after HelpCommand `--help` is not recognised as a help request (the required gate answers instead, or the command runs)")
+	}
+}
+
+// rKindTables (R18.18): a lookup table over the option kinds used by the help renderers covers all twelve kinds.
+func rKindTables(id string) func(w *World, r *Report) {
+	return func(w *World, r *Report) {
+		ru := r.Rule(id, "table coverage: every package-level map keyed by the option kind that the help renderers (package help, Option.Synopsis, helpOutput) consult has an entry for each of the twelve kinds (a kind without an entry would be rendered from the zero value - in practice: left out)", 0)
+		kinds := optionKinds(w)
+		n := 0
+		for _, pkgName := range []string{"help", "getoptions", "option"} {
+			p := w.Pkg(pkgName)
+			if p == nil {
+				continue
+			}
+			for _, file := range p.Syntax {
+				for _, d := range file.Decls {
+					gd, ok := d.(*ast.GenDecl)
+					if !ok || gd.Tok != token.VAR {
+						continue
+					}
+					for _, sp := range gd.Specs {
+						vs := sp.(*ast.ValueSpec)
+						for i, nm := range vs.Names {
+							if i >= len(vs.Values) {
+								continue
+							}
+							cl, ok := vs.Values[i].(*ast.CompositeLit)
+							if !ok {
+								continue
+							}
+							mt, ok := p.TypesInfo.TypeOf(cl).Underlying().(*types.Map)
+							if !ok || typeString(mt.Key()) != "option.Type" {
+								continue
+							}
+							// used by a renderer?
+							obj := p.TypesInfo.Defs[nm]
+							used := false
+							for id2, o := range p.TypesInfo.Uses {
+								if o != obj {
+									continue
+								}
+								fname := w.Fset.Position(id2.Pos()).Filename
+								if pkgName == "help" || strings.HasSuffix(fname, "user_help.go") {
+									used = true
+								}
+								if pkgName == "option" {
+									for _, fn := range w.Funcs {
+										if short(fn) == "(*option.Option).Synopsis" && fn.Pos() <= id2.Pos() && id2.Pos() <= fn.Syntax().End() {
+											used = true
+										}
+									}
+								}
+							}
+							if !used {
+								continue
+							}
+							n++
+							covered := map[string]bool{}
+							for _, el := range cl.Elts {
+								if kv, ok := el.(*ast.KeyValueExpr); ok {
+									if cv, ok := p.TypesInfo.Types[kv.Key]; ok && cv.Value != nil {
+										covered[cv.Value.String()] = true
+									}
+								}
+							}
+							var missing []string
+							for val, name := range kinds {
+								if !covered[val] {
+									missing = append(missing, name)
+								}
+							}
+							sort.Strings(missing)
+							ru.Check(len(missing) == 0, "kind-table/"+nm.Name, w.Pos(nm.Pos()), "all kinds have an entry", "options of kind "+strings.Join(missing, ", ")+" have no entry in the table "+nm.Name+" the help renderer consults: they would be rendered from the zero value (left out of the help)")
+						}
+					}
+				}
+			}
+		}
+		if n == 0 {
+			ru.Present("kind-table/none", "-", "no lookup table over the option kind in help rendering")
 		}
 	}
 }
